@@ -128,10 +128,15 @@ theorem alignmentIn_sort (kvs : List (Bytes × KVal)) (hnd : (kvs.map (·.1)).No
   unfold alignmentIn
   rw [find?_key_perm (sortKVs_perm kvs).symm hnd keyAlignment]
 
+theorem writerAlignment_sort (strict : Bool) (kvs : List (Bytes × KVal)) (hnd : (kvs.map (·.1)).Nodup) :
+    writerAlignment strict (sortKVs kvs) = writerAlignment strict kvs := by
+  unfold writerAlignment
+  rw [find?_key_perm (sortKVs_perm kvs).symm hnd keyAlignment]
+
 theorem encode_sort (kvs : List (Bytes × KVal)) (ts : List TIn) (hnd : (kvs.map (·.1)).Nodup) :
     encode false (sortKVs kvs) ts = encode false kvs ts := by
   unfold encode
-  rw [alignmentIn_sort kvs hnd]
+  rw [writerAlignment_sort false kvs hnd]
   have hl : (sortKVs kvs).length = kvs.length := by unfold sortKVs; exact List.length_mergeSort _
   have hh : ∀ align, encHead false align (sortKVs kvs) ts = encHead false align kvs ts := by
     intro align; unfold encHead; rw [sortKVs_idem, hl]
